@@ -65,8 +65,8 @@ func (p pset) sibling() pset { return sets[(p.idx+6)%12] }
 
 // drawSet draws a parameter set; the six 's' sets together get smallPct percent.
 func drawSet(rt *rapid.T, smallPct int) pset {
-	small := rapid.IntRange(0, 99).Draw(rt, "setclass") < smallPct
-	k := rapid.IntRange(0, 5).Draw(rt, "set")
+	small := pick(rt, "setclass", 100) < smallPct
+	k := pick(rt, "set", 6)
 	for _, p := range sets {
 		if p.small == small {
 			if k == 0 {
@@ -84,7 +84,7 @@ func weighted(rt *rapid.T, label string, nw ...any) string {
 	for i := 1; i < len(nw); i += 2 {
 		total += nw[i].(int)
 	}
-	k := rapid.IntRange(0, total-1).Draw(rt, label)
+	k := pick(rt, label, total)
 	for i := 0; i < len(nw); i += 2 {
 		if k < nw[i+1].(int) {
 			return nw[i].(string)
@@ -94,7 +94,7 @@ func weighted(rt *rapid.T, label string, nw ...any) string {
 	panic("unreachable")
 }
 
-func drawAnySet(rt *rapid.T) pset { return sets[rapid.IntRange(0, len(sets)-1).Draw(rt, "set")] }
+func drawAnySet(rt *rapid.T) pset { return sets[pick(rt, "set", len(sets))] }
 
 // hx prints byte strings completely up to 256 bytes, longer ones as prefix + length + fingerprint.
 func hx(b []byte) string {
@@ -104,32 +104,72 @@ func hx(b []byte) string {
 	return fmt.Sprintf("%s..(%d bytes, fnv=%016x)", hex.EncodeToString(b[:32]), len(b), evid.NewH().B(b).Sum())
 }
 
+// rapid's integer generators favour small values (a geometric distribution over bit lengths), which
+// is useful for shrinking but would starve the high tree/leaf indices, the high address bits and the
+// large base-2^b digits this property is about, and would distort the intended parameter-set mix.
+// Every choice below is still one rapid draw (replayable, shrinkable towards 0), passed through the
+// splitmix64 finaliser so that the value used is uniform.
+func uniform(rt *rapid.T, label string) uint64 {
+	z := rapid.Uint64().Draw(rt, label) + 0x9e3779b97f4a7c15
+	z = (z ^ (z >> 30)) * 0xbf58476d1ce4e5b9
+	z = (z ^ (z >> 27)) * 0x94d049bb133111eb
+	return z ^ (z >> 31)
+}
+
+// pick draws uniformly from [0, n).
+func pick(rt *rapid.T, label string, n int) int { return int(uniform(rt, label) % uint64(n)) }
+
+// sample draws uniformly from s.
+func sample[T any](rt *rapid.T, label string, s []T) T { return s[pick(rt, label, len(s))] }
+
+// rbytes draws n bytes: uniform content, or (1/16 each) all-0x00, all-0xff, 00 01 02...
+func rbytes(rt *rapid.T, label string, n int) []byte {
+	if n == 0 {
+		return []byte{}
+	}
+	b := make([]byte, n)
+	switch pick(rt, label+"_fill", 16) {
+	case 0:
+	case 1:
+		for i := range b {
+			b[i] = 0xff
+		}
+	case 2:
+		for i := range b {
+			b[i] = byte(i)
+		}
+	default:
+		b = gen.Expand(uniform(rt, label), n)
+	}
+	return b
+}
+
 var edge32 = []uint32{0, 1, 2, 3, 0xff, 0x100, 0xffff, 0x10000, 0xffffff, 0x1000000, 0x7fffffff, 0x80000000, 0xfffffffe, 0xffffffff}
 var edge64 = []uint64{0, 1, 0xff, 0xffffffff, 0x100000000, 0x3fffffffffffff, 0x40000000000000, 0xffffffffffffff, 0x7fffffffffffffff, 0x8000000000000000, 0xffffffffffffffff}
 
 func u32(rt *rapid.T, label string) uint32 {
-	if rapid.IntRange(0, 9).Draw(rt, label+"_kind") < 3 {
-		return rapid.SampledFrom(edge32).Draw(rt, label)
+	if pick(rt, label+"_kind", 10) < 3 {
+		return sample(rt, label, edge32)
 	}
-	return rapid.Uint32().Draw(rt, label)
+	return uint32(uniform(rt, label))
 }
 
 func u64(rt *rapid.T, label string) uint64 {
-	if rapid.IntRange(0, 9).Draw(rt, label+"_kind") < 3 {
-		return rapid.SampledFrom(edge64).Draw(rt, label)
+	if pick(rt, label+"_kind", 10) < 3 {
+		return sample(rt, label, edge64)
 	}
-	return rapid.Uint64().Draw(rt, label)
+	return uniform(rt, label)
 }
 
 // below draws a value in [0, n) with 0 and n-1 over-represented.
 func below(rt *rapid.T, label string, n uint32) uint32 {
-	switch rapid.IntRange(0, 9).Draw(rt, label+"_kind") {
+	switch pick(rt, label+"_kind", 10) {
 	case 0:
 		return 0
 	case 1:
 		return n - 1
 	}
-	return uint32(rapid.Uint64Range(0, uint64(n)-1).Draw(rt, label))
+	return uint32((uniform(rt, label) % (uint64(n))))
 }
 
 // ---------------------------------------------------------------------------------------------
@@ -171,13 +211,13 @@ var setters = []setter{
 // drawSetterSeq applies a drawn setter sequence to both sides and returns the log.
 func drawSetterSeq(rt *rapid.T, a addr, maxOps int, check func(log []string)) []string {
 	var log []string
-	nops := rapid.IntRange(1, maxOps).Draw(rt, "nops")
+	nops := 1 + pick(rt, "nops", maxOps)
 	for i := 0; i < nops; i++ {
-		s := setters[rapid.IntRange(0, len(setters)-1).Draw(rt, "setter")]
+		s := setters[pick(rt, "setter", len(setters))]
 		var v uint64
 		switch {
 		case s.typ:
-			v = uint64(rapid.IntRange(0, 6).Draw(rt, "type"))
+			v = uint64(pick(rt, "type", 7))
 		case s.wide:
 			v = u64(rt, "val64")
 		default:
@@ -207,13 +247,13 @@ func freeAddr(rt *rapid.T) addr {
 // or left over from an earlier use (every algorithm overwrites them before use).
 func structAddr(rt *rapid.T, p pset, typ uint32, keyPair bool) (addr, uint32) {
 	var layer uint32
-	if rapid.IntRange(0, 9).Draw(rt, "layer_kind") < 8 {
+	if pick(rt, "layer_kind", 10) < 8 {
 		layer = below(rt, "layer", uint32(p.r.D))
 	} else {
 		layer = u32(rt, "layer_any")
 	}
 	var tree uint64
-	switch rapid.IntRange(0, 9).Draw(rt, "tree_kind") {
+	switch pick(rt, "tree_kind", 10) {
 	case 0:
 		tree = 0
 	case 1:
@@ -221,10 +261,10 @@ func structAddr(rt *rapid.T, p pset, typ uint32, keyPair bool) (addr, uint32) {
 	case 2:
 		tree = u64(rt, "tree_any")
 	default:
-		tree = rapid.Uint64().Draw(rt, "tree") & p.treeMask()
+		tree = uniform(rt, "tree") & p.treeMask()
 	}
 	var kp uint32
-	if rapid.IntRange(0, 9).Draw(rt, "kp_kind") < 8 {
+	if pick(rt, "kp_kind", 10) < 8 {
 		kp = below(rt, "kp", p.leaves())
 	} else {
 		kp = u32(rt, "kp_any")
@@ -242,7 +282,7 @@ func structAddr(rt *rapid.T, p pset, typ uint32, keyPair bool) (addr, uint32) {
 		a.r.SetKeyPairAddress(kp)
 		a.desc += fmt.Sprintf(" keypair=%#x", kp)
 	}
-	if rapid.IntRange(0, 3).Draw(rt, "leftover") == 0 {
+	if pick(rt, "leftover", 4) == 0 {
 		w2, w3 := u32(rt, "leftover2"), u32(rt, "leftover3")
 		a.t.SetChainAddress(w2)
 		a.r.SetChainAddress(w2)
@@ -272,10 +312,10 @@ func TestAddress(t *testing.T) {
 	rapid.Check(t, func(rt *rapid.T) {
 		detrand.Seed(rapid.Uint64().Draw(rt, "entropy"))
 		var start [32]byte
-		fromRaw := rapid.Bool().Draw(rt, "fromraw")
+		fromRaw := (pick(rt, "fromraw", 2) == 0)
 		a := addr{t: slhdsa.VerifNewAddress(), r: &slhref.ADRS{}}
 		if fromRaw {
-			copy(start[:], gen.BytesN(rt, "raw", 32))
+			copy(start[:], rbytes(rt, "raw", 32))
 			r := slhref.ADRS(start)
 			a = addr{t: slhdsa.VerifAddressFromBytes(start), r: &r}
 		}
@@ -343,7 +383,7 @@ func eqU32(a, b []uint32) bool {
 func TestSupport(t *testing.T) {
 	rapid.Check(t, func(rt *rapid.T) {
 		detrand.Seed(rapid.Uint64().Draw(rt, "entropy"))
-		kind := rapid.SampledFrom([]string{"base2b-fors", "base2b-wots", "base2b-csum", "base2b-free", "base2b-free", "toInt", "toByte"}).Draw(rt, "kind")
+		kind := sample(rt, "kind", []string{"base2b-fors", "base2b-wots", "base2b-csum", "base2b-free", "base2b-free", "toInt", "toByte"})
 		h := evid.NewH().S(kind)
 		class := kind
 		var sample any
@@ -363,15 +403,15 @@ func TestSupport(t *testing.T) {
 			default:
 				// base2b keeps its accumulator in 32 bits: digits of up to 24 bits leave room for the
 				// up to 7 pending bits plus the next byte. SLH-DSA uses b <= 14.
-				b = rapid.IntRange(1, 24).Draw(rt, "b")
-				outLen = rapid.IntRange(0, 70).Draw(rt, "outlen")
+				b = 1 + pick(rt, "b", 24)
+				outLen = pick(rt, "outlen", 71)
 			}
 			need := (outLen*b + 7) / 8
 			extra := 0
-			if rapid.IntRange(0, 3).Draw(rt, "longer") == 0 {
-				extra = rapid.IntRange(1, 5).Draw(rt, "extra")
+			if pick(rt, "longer", 4) == 0 {
+				extra = 1 + pick(rt, "extra", 5)
 			}
-			x := gen.BytesN(rt, "x", need+extra)
+			x := rbytes(rt, "x", need+extra)
 			got := slhdsa.VerifBase2b(x, uint32(b), uint32(outLen))
 			want := slhref.Base2b(x, b, outLen)
 			if !eqU32(got, want) {
@@ -385,8 +425,8 @@ func TestSupport(t *testing.T) {
 			h = h.I(int64(b)).I(int64(outLen)).B(x)
 			sample = map[string]any{"x": hx(x), "b": b, "out_len": outLen}
 		case "toInt":
-			n := rapid.IntRange(0, 8).Draw(rt, "n")
-			x := gen.BytesN(rt, "x", n+rapid.IntRange(0, 3).Draw(rt, "extra"))
+			n := pick(rt, "n", 9)
+			x := rbytes(rt, "x", n+pick(rt, "extra", 4))
 			got, want := slhdsa.VerifToInt(x, uint32(n)), slhref.ToInt(x, n)
 			if got != want {
 				rt.Fatalf("toInt(%s, %d) = %#x, FIPS 205 Algorithm 2 (reference) gives %#x", hx(x), n, got, want)
@@ -395,7 +435,7 @@ func TestSupport(t *testing.T) {
 			h = h.I(int64(n)).B(x)
 			sample = map[string]any{"x": hx(x), "n": n}
 		case "toByte":
-			n := rapid.IntRange(0, 12).Draw(rt, "n")
+			n := pick(rt, "n", 13)
 			x := u32(rt, "x")
 			got, want := slhdsa.VerifToByte(x, uint32(n)), slhref.ToByte(uint64(x), n)
 			if !bytes.Equal(got, want) {
@@ -429,24 +469,24 @@ func TestHashes(t *testing.T) {
 		detrand.Seed(rapid.Uint64().Draw(rt, "entropy"))
 		p := drawAnySet(rt)
 		n := p.n()
-		kind := rapid.SampledFrom([]string{"H_msg", "PRF", "PRF_msg", "F", "H", "T_l"}).Draw(rt, "kind")
-		pkSeed := gen.BytesN(rt, "pkseed", n)
+		kind := sample(rt, "kind", []string{"H_msg", "PRF", "PRF_msg", "F", "H", "T_l"})
+		pkSeed := rbytes(rt, "pkseed", n)
 		h := evid.NewH().S(p.name).S(kind).B(pkSeed)
 		var got, want []byte
 		var desc string
 		lenClass := ""
 		switch kind {
 		case "H_msg":
-			r := gen.BytesN(rt, "r", n)
-			pkRoot := gen.BytesN(rt, "pkroot", n)
+			r := rbytes(rt, "r", n)
+			pkRoot := rbytes(rt, "pkroot", n)
 			msg := gen.Bytes(rt, "msg", 2048)
 			got, want = p.t.HMsg(r, pkSeed, pkRoot, msg), p.r.HMsg(r, pkSeed, pkRoot, msg)
 			desc = fmt.Sprintf("R=%s PK.seed=%s PK.root=%s M=%s", hx(r), hx(pkSeed), hx(pkRoot), hx(msg))
 			h = h.B(r).B(pkRoot).B(msg)
 			lenClass = gen.LenClass(len(msg))
 		case "PRF_msg":
-			skPrf := gen.BytesN(rt, "skprf", n)
-			optRand := gen.BytesN(rt, "optrand", n)
+			skPrf := rbytes(rt, "skprf", n)
+			optRand := rbytes(rt, "optrand", n)
 			msg := gen.Bytes(rt, "msg", 2048)
 			got, want = p.t.PrfMsg(skPrf, optRand, msg), p.r.PRFMsg(skPrf, optRand, msg)
 			desc = fmt.Sprintf("SK.prf=%s opt_rand=%s M=%s", hx(skPrf), hx(optRand), hx(msg))
@@ -457,12 +497,12 @@ func TestHashes(t *testing.T) {
 			var m []byte
 			switch kind {
 			case "PRF", "F":
-				m = gen.BytesN(rt, "m", n)
+				m = rbytes(rt, "m", n)
 			case "H":
-				m = gen.BytesN(rt, "m", 2*n)
+				m = rbytes(rt, "m", 2*n)
 			case "T_l":
-				l := rapid.SampledFrom([]int{p.len(), p.r.K, rapid.IntRange(0, 70).Draw(rt, "l")}).Draw(rt, "lsel")
-				m = gen.BytesN(rt, "m", l*n)
+				l := sample(rt, "lsel", []int{p.len(), p.r.K, pick(rt, "l", 71)})
+				m = rbytes(rt, "m", l*n)
 				lenClass = map[bool]string{true: "len", false: "other"}[l == p.len()]
 				if l == p.r.K {
 					lenClass = "k"
@@ -531,9 +571,9 @@ func TestWOTS(t *testing.T) {
 		detrand.Seed(rapid.Uint64().Draw(rt, "entropy"))
 		p := drawAnySet(rt)
 		n := p.n()
-		kind := rapid.SampledFrom([]string{"chain", "chain", "checksum", "pkGen", "sign", "pkFromSig-genuine", "pkFromSig-random", "pkFromSig-random"}).Draw(rt, "kind")
-		pkSeed := gen.BytesN(rt, "pkseed", n)
-		skSeed := gen.BytesN(rt, "skseed", n)
+		kind := sample(rt, "kind", []string{"chain", "chain", "checksum", "pkGen", "sign", "pkFromSig-genuine", "pkFromSig-random", "pkFromSig-random"})
+		pkSeed := rbytes(rt, "pkseed", n)
+		skSeed := rbytes(rt, "skseed", n)
 		h := evid.NewH().S(p.name).S(kind).B(pkSeed)
 		sub := ""
 		var desc string
@@ -544,16 +584,16 @@ func TestWOTS(t *testing.T) {
 			ch := below(rt, "chainaddr", uint32(p.len()))
 			a.t.SetChainAddress(ch)
 			a.r.SetChainAddress(ch)
-			x := gen.BytesN(rt, "x", n)
+			x := rbytes(rt, "x", n)
 			w := p.r.W()
-			i := rapid.IntRange(0, w-1).Draw(rt, "i")
-			s := rapid.IntRange(0, w-1-i).Draw(rt, "s")
+			i := pick(rt, "i", w)
+			s := pick(rt, "s", (w-1-i)+1)
 			desc = fmt.Sprintf("X=%s i=%d s=%d PK.seed=%s %v chain=%d", hx(x), i, s, hx(pkSeed), a, ch)
 			got, want = p.t.Chain(x, uint32(i), uint32(s), pkSeed, a.t), p.r.Chain(x, i, s, pkSeed, a.r)
 			h = h.B(x).I(int64(i)).I(int64(s)).B(a.r[:])
 			sub = fmt.Sprintf("i=%d/s=%d", i, s)
 		case "checksum":
-			m := gen.BytesN(rt, "m", n)
+			m := rbytes(rt, "m", n)
 			gd, wd := p.t.WotsChecksum(m), refWotsDigits(p.r, m)
 			if !eqU32(gd, wd) {
 				rt.Fatalf("%s WOTS+ message digits with checksum for M=%s: %v, FIPS 205 Algorithm 7 lines 2-7 (reference base_2b/toByte) give %v", p.name, hx(m), gd, wd)
@@ -570,21 +610,21 @@ func TestWOTS(t *testing.T) {
 				got, want = p.t.WotsPkGen(skSeed, pkSeed, at.t), p.r.WotsPKGen(skSeed, pkSeed, ar.r)
 				h = h.B(skSeed).B(a.r[:])
 			case "sign":
-				m := gen.BytesN(rt, "m", n)
+				m := rbytes(rt, "m", n)
 				desc = fmt.Sprintf("M=%s SK.seed=%s PK.seed=%s %v", hx(m), hx(skSeed), hx(pkSeed), a)
 				got, want = p.t.WotsSign(m, skSeed, pkSeed, at.t), p.r.WotsSign(m, skSeed, pkSeed, ar.r)
 				h = h.B(skSeed).B(a.r[:]).B(m)
 				sub = digestClass(m)
 			case "pkFromSig-genuine":
-				m := gen.BytesN(rt, "m", n)
+				m := rbytes(rt, "m", n)
 				sig := p.r.WotsSign(m, skSeed, pkSeed, a.clone().r)
 				desc = fmt.Sprintf("sig=reference wots_sign(M, SK.seed=%s) M=%s PK.seed=%s %v", hx(skSeed), hx(m), hx(pkSeed), a)
 				got, want = p.t.WotsPkFromSig(sig, m, pkSeed, at.t), p.r.WotsPKFromSig(sig, m, pkSeed, ar.r)
 				h = h.B(skSeed).B(a.r[:]).B(m)
 				sub = digestClass(m)
 			case "pkFromSig-random":
-				m := gen.BytesN(rt, "m", n)
-				sig := gen.BytesN(rt, "sig", p.len()*n)
+				m := rbytes(rt, "m", n)
+				sig := rbytes(rt, "sig", p.len()*n)
 				desc = fmt.Sprintf("sig=%s M=%s PK.seed=%s %v", hex.EncodeToString(sig), hx(m), hx(pkSeed), a)
 				got, want = p.t.WotsPkFromSig(sig, m, pkSeed, at.t), p.r.WotsPKFromSig(sig, m, pkSeed, ar.r)
 				h = h.B(sig).B(a.r[:]).B(m)
@@ -604,7 +644,7 @@ func TestWOTS(t *testing.T) {
 // layerTreeAddr is an address holding only a layer and a tree address (what ht_sign / ht_verify
 // pass down), possibly with words left over from the previous layer's use.
 func layerTreeAddr(rt *rapid.T, p pset) addr {
-	a, _ := structAddr(rt, p, uint32(rapid.IntRange(0, 6).Draw(rt, "oldtype")), rapid.Bool().Draw(rt, "oldkp"))
+	a, _ := structAddr(rt, p, uint32(pick(rt, "oldtype", 7)), (pick(rt, "oldkp", 2) == 0))
 	return a
 }
 
@@ -620,8 +660,8 @@ func TestXMSS(t *testing.T) {
 			p = drawAnySet(rt)
 		}
 		n := p.n()
-		pkSeed := gen.BytesN(rt, "pkseed", n)
-		skSeed := gen.BytesN(rt, "skseed", n)
+		pkSeed := rbytes(rt, "pkseed", n)
+		skSeed := rbytes(rt, "skseed", n)
 		a := layerTreeAddr(rt, p)
 		at, ar := a.clone(), a.clone()
 		h := evid.NewH().S(p.name).S(kind).B(pkSeed).B(a.r[:])
@@ -633,21 +673,21 @@ func TestXMSS(t *testing.T) {
 			if p.small {
 				zmax = 3
 			}
-			z := rapid.IntRange(0, zmax).Draw(rt, "z")
+			z := pick(rt, "z", (zmax)+1)
 			i := below(rt, "i", uint32(1)<<uint(p.r.HPrime-z))
 			desc = fmt.Sprintf("SK.seed=%s i=%d z=%d PK.seed=%s %v", hx(skSeed), i, z, hx(pkSeed), a)
 			got, want = p.t.XmssNode(skSeed, i, uint32(z), pkSeed, at.t), p.r.XmssNode(skSeed, i, z, pkSeed, ar.r)
 			h = h.B(skSeed).I(int64(i)).I(int64(z))
 			sub = fmt.Sprintf("z=%d", z)
 		case "sign":
-			m := gen.BytesN(rt, "m", n)
+			m := rbytes(rt, "m", n)
 			idx := below(rt, "idx", p.leaves())
 			desc = fmt.Sprintf("M=%s SK.seed=%s idx=%d PK.seed=%s %v", hx(m), hx(skSeed), idx, hx(pkSeed), a)
 			got, want = p.t.XmssSign(m, skSeed, idx, pkSeed, at.t), p.r.XmssSign(m, skSeed, idx, pkSeed, ar.r)
 			h = h.B(skSeed).B(m).I(int64(idx))
 			sub = idxClass(idx, p.leaves())
 		case "pkFromSig-genuine":
-			m := gen.BytesN(rt, "m", n)
+			m := rbytes(rt, "m", n)
 			idx := below(rt, "idx", p.leaves())
 			sig := p.r.XmssSign(m, skSeed, idx, pkSeed, a.clone().r)
 			desc = fmt.Sprintf("idx=%d sig=reference xmss_sign(M, SK.seed=%s, idx) M=%s PK.seed=%s %v", idx, hx(skSeed), hx(m), hx(pkSeed), a)
@@ -655,9 +695,9 @@ func TestXMSS(t *testing.T) {
 			h = h.B(skSeed).B(m).I(int64(idx))
 			sub = idxClass(idx, p.leaves())
 		case "pkFromSig-random":
-			m := gen.BytesN(rt, "m", n)
+			m := rbytes(rt, "m", n)
 			idx := below(rt, "idx", p.leaves())
-			sig := gen.BytesN(rt, "sig", p.xmssLen())
+			sig := rbytes(rt, "sig", p.xmssLen())
 			desc = fmt.Sprintf("idx=%d sig=%s M=%s PK.seed=%s %v", idx, hex.EncodeToString(sig), hx(m), hx(pkSeed), a)
 			got, want = p.t.XmssPkFromSig(idx, sig, m, pkSeed, at.t), p.r.XmssPKFromSig(idx, sig, m, pkSeed, ar.r)
 			h = h.B(sig).B(m).I(int64(idx))
@@ -697,8 +737,8 @@ func TestFORS(t *testing.T) {
 			p = drawAnySet(rt)
 		}
 		n := p.n()
-		pkSeed := gen.BytesN(rt, "pkseed", n)
-		skSeed := gen.BytesN(rt, "skseed", n)
+		pkSeed := rbytes(rt, "pkseed", n)
+		skSeed := rbytes(rt, "skseed", n)
 		a, _ := structAddr(rt, p, slhref.FORS_TREE, true)
 		at, ar := a.clone(), a.clone()
 		h := evid.NewH().S(p.name).S(kind).B(pkSeed).B(a.r[:])
@@ -715,28 +755,28 @@ func TestFORS(t *testing.T) {
 			if zmax > 6 {
 				zmax = 6
 			}
-			z := rapid.IntRange(0, zmax).Draw(rt, "z")
+			z := pick(rt, "z", (zmax)+1)
 			i := below(rt, "i", uint32(p.r.K)<<uint(p.r.A-z))
 			desc = fmt.Sprintf("SK.seed=%s i=%d z=%d PK.seed=%s %v", hx(skSeed), i, z, hx(pkSeed), a)
 			got, want = p.t.ForsNode(skSeed, i, uint32(z), pkSeed, at.t), p.r.ForsNode(skSeed, i, z, pkSeed, ar.r)
 			h = h.B(skSeed).I(int64(i)).I(int64(z))
 			sub = fmt.Sprintf("z=%d", z)
 		case "sign":
-			md := gen.BytesN(rt, "md", p.mdLen())
+			md := rbytes(rt, "md", p.mdLen())
 			desc = fmt.Sprintf("md=%s SK.seed=%s PK.seed=%s %v", hx(md), hx(skSeed), hx(pkSeed), a)
 			got, want = p.t.ForsSign(md, skSeed, pkSeed, at.t), p.r.ForsSign(md, skSeed, pkSeed, ar.r)
 			h = h.B(skSeed).B(md)
 			sub = digestClass(md)
 		case "pkFromSig-genuine":
-			md := gen.BytesN(rt, "md", p.mdLen())
+			md := rbytes(rt, "md", p.mdLen())
 			sig := p.r.ForsSign(md, skSeed, pkSeed, a.clone().r)
 			desc = fmt.Sprintf("sig=reference fors_sign(md, SK.seed=%s) md=%s PK.seed=%s %v", hx(skSeed), hx(md), hx(pkSeed), a)
 			got, want = p.t.ForsPkFromSig(sig, md, pkSeed, at.t), p.r.ForsPKFromSig(sig, md, pkSeed, ar.r)
 			h = h.B(skSeed).B(md)
 			sub = digestClass(md)
 		case "pkFromSig-random":
-			md := gen.BytesN(rt, "md", p.mdLen())
-			sig := gen.BytesN(rt, "sig", p.forsLen())
+			md := rbytes(rt, "md", p.mdLen())
+			sig := rbytes(rt, "sig", p.forsLen())
 			desc = fmt.Sprintf("sig=%s md=%s PK.seed=%s %v", hx(sig), hx(md), hx(pkSeed), a)
 			got, want = p.t.ForsPkFromSig(sig, md, pkSeed, at.t), p.r.ForsPKFromSig(sig, md, pkSeed, ar.r)
 			h = h.B(sig).B(md)
@@ -770,7 +810,7 @@ func refHtRoot(p *slhref.Params, m, sigHt, pkSeed []byte, idxTree uint64, idxLea
 }
 
 func drawTreeIdx(rt *rapid.T, p pset) uint64 {
-	switch rapid.IntRange(0, 9).Draw(rt, "idxtree_kind") {
+	switch pick(rt, "idxtree_kind", 10) {
 	case 0:
 		return 0
 	case 1:
@@ -778,7 +818,7 @@ func drawTreeIdx(rt *rapid.T, p pset) uint64 {
 	case 2:
 		return u64(rt, "idxtree_edge") & p.treeMask()
 	}
-	return rapid.Uint64().Draw(rt, "idxtree") & p.treeMask()
+	return uniform(rt, "idxtree") & p.treeMask()
 }
 
 func treeClass(t uint64, p pset) string {
@@ -810,8 +850,8 @@ func TestHypertree(t *testing.T) {
 			p = drawSet(rt, 0) // d * 2^h' WOTS+ key generations: 'f' sets only, 's' sets are signed in TestScheme
 		}
 		n := p.n()
-		pkSeed := gen.BytesN(rt, "pkseed", n)
-		m := gen.BytesN(rt, "m", n)
+		pkSeed := rbytes(rt, "pkseed", n)
+		m := rbytes(rt, "m", n)
 		idxTree := drawTreeIdx(rt, p)
 		idxLeaf := below(rt, "idxleaf", p.leaves())
 		h := evid.NewH().S(p.name).S(kind).B(pkSeed).B(m).I(int64(idxTree)).I(int64(idxLeaf))
@@ -826,7 +866,7 @@ func TestHypertree(t *testing.T) {
 		}
 		switch kind {
 		case "verify-random":
-			sig := gen.BytesN(rt, "sig", p.htLen())
+			sig := rbytes(rt, "sig", p.htLen())
 			h = h.B(sig)
 			// The root the reference computes from these bytes is the one PK.root for which the
 			// reference accepts them; the library must accept exactly then.
@@ -834,18 +874,18 @@ func TestHypertree(t *testing.T) {
 			if !verify("PK.root = root computed by the reference from SIG_HT", sig, root) {
 				rt.Fatalf("%s: reference ht_verify rejects the root it computes itself (%s)", p.name, desc)
 			}
-			switch rapid.SampledFrom([]string{"rootflip", "otherroot", "sigflip", "sigflip"}).Draw(rt, "variant") {
+			switch sample(rt, "variant", []string{"rootflip", "otherroot", "sigflip", "sigflip"}) {
 			case "rootflip":
-				verify("PK.root = computed root with one bit flipped", sig, flipBit(root, rapid.IntRange(0, 8*n-1).Draw(rt, "rootbit")))
+				verify("PK.root = computed root with one bit flipped", sig, flipBit(root, pick(rt, "rootbit", 8*n)))
 			case "otherroot":
-				verify("PK.root = drawn", sig, gen.BytesN(rt, "otherroot", n))
+				verify("PK.root = drawn", sig, rbytes(rt, "otherroot", n))
 			case "sigflip":
-				layer := rapid.IntRange(0, p.r.D-1).Draw(rt, "layer")
-				bit := rapid.IntRange(0, 8*p.xmssLen()-1).Draw(rt, "bit")
+				layer := pick(rt, "layer", p.r.D)
+				bit := pick(rt, "bit", 8*p.xmssLen())
 				verify(fmt.Sprintf("SIG_HT bit %d of layer %d flipped, PK.root as computed before", bit, layer), flipBit(sig, 8*layer*p.xmssLen()+bit), root)
 			}
 		default:
-			skSeed := gen.BytesN(rt, "skseed", n)
+			skSeed := rbytes(rt, "skseed", n)
 			h = h.B(skSeed)
 			desc += " SK.seed=" + hx(skSeed)
 			want := p.r.HtSign(m, skSeed, pkSeed, idxTree, idxLeaf)
@@ -858,11 +898,11 @@ func TestHypertree(t *testing.T) {
 			_, pk := p.r.KeyGenInternal(skSeed, make([]byte, n), pkSeed)
 			root := pk[n:]
 			verify("reference ht_sign signature, PK.root from reference key generation", want, root)
-			layer := rapid.IntRange(0, p.r.D-1).Draw(rt, "layer")
-			bit := rapid.IntRange(0, 8*p.xmssLen()-1).Draw(rt, "bit")
+			layer := pick(rt, "layer", p.r.D)
+			bit := pick(rt, "bit", 8*p.xmssLen())
 			verify(fmt.Sprintf("reference signature with bit %d of layer %d flipped", bit, layer), flipBit(want, 8*layer*p.xmssLen()+bit), root)
-			verify("reference signature, PK.root with one bit flipped", want, flipBit(root, rapid.IntRange(0, 8*n-1).Draw(rt, "rootbit")))
-			m2 := flipBit(m, rapid.IntRange(0, 8*n-1).Draw(rt, "mbit"))
+			verify("reference signature, PK.root with one bit flipped", want, flipBit(root, pick(rt, "rootbit", 8*n)))
+			m2 := flipBit(m, pick(rt, "mbit", 8*n))
 			if got, wantOK := p.t.HtVerify(m2, want, pkSeed, idxTree, idxLeaf, root), p.r.HtVerify(m2, want, pkSeed, idxTree, idxLeaf, root); got != wantOK {
 				rt.Fatalf("%s ht_verify(%s with M replaced by %s, reference signature) = %v, reference gives %v", p.name, desc, hx(m2), got, wantOK)
 			}
